@@ -1,7 +1,7 @@
 From V Require Import lib.Base model.Proto gen.Gen_dispatch.
 Definition Pgen : dparams :=
   Build_dparams Gen_dispatch.unpack_in_try Gen_dispatch.unbox_in_try Gen_dispatch.handler_in_try
-                Gen_dispatch.reply_encode_guarded Gen_dispatch.exc_encode_guarded.
+                Gen_dispatch.reply_encode_guarded Gen_dispatch.exc_encode_guarded Gen_dispatch.reraises_marked.
 Lemma tie_guarded_region : Gen_dispatch.unpack_in_try = true /\ Gen_dispatch.unbox_in_try = true /\ Gen_dispatch.handler_in_try = true.
 Proof. repeat split. Qed.
 Lemma tie_requester : Gen_dispatch.dispatch_routing_is_standard = true /\ Gen_dispatch.callback_popped_then_called = true
